@@ -424,6 +424,28 @@ func RunKV(sc *KVScenario, log *EventLog, workDir string) error {
 			case "dsn_env_bad":
 				os.Setenv("FSCACHE_ENCRYPT_KEY", "zzz")
 				c, err = store.Open(dsn("encrypt=aesgcm"))
+			default:
+				// "<way>_len:<n>": a key of n bytes; only 16, 24 and 32 are AES key sizes
+				var n int
+				way := op.How[:3]
+				fmt.Sscanf(op.How[strings.Index(op.How, ":")+1:], "%d", &n)
+				kb := make([]byte, n)
+				for i := range kb {
+					kb[i] = byte(i*7 + 1)
+				}
+				k64 := base64.URLEncoding.EncodeToString(kb)
+				if n == 16 || n == 24 || n == 32 {
+					expect = 1
+				}
+				switch way {
+				case "opt":
+					c, err = fscache.Open("e", fscache.WithBaseDir(sub), fscache.WithEncryption(k64))
+				case "dsn":
+					c, err = store.Open(dsn("encrypt=on&encrypt_key=" + url.QueryEscape(k64)))
+				default:
+					os.Setenv("FSCACHE_ENCRYPT_KEY", k64)
+					c, err = store.Open(dsn("encrypt=aesgcm"))
+				}
 			}
 			os.Unsetenv("FSCACHE_ENCRYPT_KEY")
 			ev["expect"] = expect
@@ -483,6 +505,42 @@ func RunKV(sc *KVScenario, log *EventLog, workDir string) error {
 			if len(errs) > 0 {
 				ev["errs"] = strings.Join(errs, "; ")
 			}
+		case "encstress":
+			// concurrent Sets of one value under different keys on the encrypted backend: every
+			// ciphertext (and nonce) must differ and every entry must stay readable
+			var wg sync.WaitGroup
+			stop := make(chan struct{})
+			for wi := 0; wi < op.N && wi < len(r.keys); wi++ {
+				wg.Add(1)
+				go func(wi int) {
+					defer wg.Done()
+					for {
+						select {
+						case <-stop:
+							return
+						default:
+						}
+						_ = r.conn.Set(string(r.keys[wi]), append([]byte(nil), r.vals[op.V]...))
+					}
+				}(wi)
+			}
+			time.Sleep(time.Duration(op.Cut) * time.Millisecond)
+			close(stop)
+			wg.Wait()
+			same := 0
+			seen := map[string]bool{}
+			for _, f := range r.files() {
+				b, err := os.ReadFile(f)
+				if err != nil || len(b) < 12 {
+					continue
+				}
+				if seen[string(b[:12])] {
+					same++
+				}
+				seen[string(b[:12])] = true
+			}
+			ev["samect"] = b2i(same > 0)
+			ev["ok"] = 1
 		case "stress":
 			// free-running writers alternating two values, readers and a deleter on one key
 			key := string(r.keys[op.K])
